@@ -2,6 +2,11 @@
 from .common import *
 from . import C09 as _c09
 from . import C15 as _c15
+
+
+def _c17():
+    from . import C17
+    return C17
 from sa import imgdom
 
 TITLE = "Dose filtering applies the Grant-Grigorieff exposure attenuation"
@@ -194,6 +199,7 @@ def o163(ctx):
 
 def _obligations():
     return [
+        Obligation("O16.6", "doses of an mdoc file: ExposureDose + PriorRecordDose, or ExposureDose times the rank in order of acquisition, in the order of the table's rows (shared with C17)", lambda ctx: _c17().o173(ctx), floor=8),
         Obligation("O16.4", "loaders: tlt_load passes arrays / lists through and returns every file value (sorted only on request); total_dose_load hands doses back as given (shared with C09)", lambda ctx: (_c09.o96(ctx), _c09.o98(ctx)), floor=12),
         Obligation("O16.5", "TiltStack holds the caller's array unchanged (axes permuted at most), reads files unpermuted, returns / writes in the stack's type (shared with C15)", _c15.o155, floor=8),
         Obligation("O16.1", "extracted Fourier gain equals the exposure attenuation for every size/index/dose; layouts cancel; pairing", o161, floor=60),
